@@ -142,6 +142,60 @@ def fault_cases(seed, n):
     return out
 
 
+THREAD_CONFIGS = [
+    (["-t", "ext4", "-b", "1024", "-g", "256", "-N", "256"], "7M"),                 # 28 groups, flex 16
+    (["-t", "ext4", "-b", "1024", "-g", "512", "-G", "4", "-N", "256"], "9M"),
+    (["-t", "ext4", "-b", "1024", "-g", "256", "-O", "^flex_bg", "-N", "256"], "5M"),
+    (["-t", "ext2", "-b", "1024", "-g", "256", "-N", "256"], "3M"),
+    (["-t", "ext4", "-b", "4096", "-G", "2"], "300M"),
+    (["-t", "ext4", "-b", "1024", "-g", "256", "-O", "^metadata_csum,uninit_bg", "-G", "8", "-N", "256"], "6M"),
+    (["-t", "ext4", "-b", "1024", "-g", "256", "-G", "1", "-N", "128"], "1300K"),    # 5 groups
+]
+THREADS = ["1", "2", "3", "4", "5", "7", "8", "16", "33", "64", "0", "-1"]
+
+
+def thread_check(src, tier, seed):
+    """bitmaps loaded with every thread count must equal single-threaded loading; thorough: the same under ThreadSanitizer"""
+    hb = e2v.build_harness("h_bmload", src)
+    env = e2v.tool_env(src)
+    bad, runs = [], 0
+    imgs = []
+    for k, (opts, size) in enumerate(THREAD_CONFIGS):
+        img = os.path.join(WORK, "thr_%d.img" % k)
+        if os.path.exists(img):
+            os.unlink(img)
+        rc, out = e2v.sh([os.path.join(src, "misc/mke2fs"), "-q", "-F"] + opts + [img, size], env=env, timeout=300)
+        if rc != 0:
+            continue
+        r = e2v.rng(seed, "c17thr", k)
+        cmds = ["mkdir d%d" % i for i in range(r.randint(2, 12))] + ["write /etc/services f%d" % i for i in range(r.randint(3, 30))]
+        e2v.sh([os.path.join(src, "debugfs/debugfs"), "-w", "-f", "-", img], input=("\n".join(cmds) + "\n").encode(), env=env, timeout=300)
+        imgs.append((k, opts, img))
+        p = subprocess.run([hb, img] + THREADS, stdout=subprocess.PIPE, stderr=subprocess.STDOUT, timeout=600)
+        lines = [l.split() for l in p.stdout.decode().split("\n") if l.strip()]
+        runs += len(lines)
+        ref = [l for l in lines if l[0] == "1"]
+        if p.returncode != 0 or len(lines) != len(THREADS) or not ref:
+            bad.append({"mke2fs": opts, "why": "harness failed: rc %d, %d lines" % (p.returncode, len(lines))})
+            continue
+        for l in lines:
+            if l[1:] != ref[0][1:]:
+                bad.append({"mke2fs": opts, "threads": l[0], "single_threaded": ref[0][1:], "observed": l[1:]})
+                break
+    if tier == "thorough":
+        ts = e2v.ensure_build("tsan")
+        ht = e2v.build_harness("h_bmload", ts, variant="tsan")
+        for k, opts, img in imgs:
+            p = subprocess.run([ht, img] + THREADS, stdout=subprocess.PIPE, stderr=subprocess.STDOUT, timeout=900,
+                               env=dict(os.environ, TSAN_OPTIONS="halt_on_error=0"))
+            runs += len(THREADS)
+            o = p.stdout.decode()
+            if "ThreadSanitizer" in o:
+                i = o.index("ThreadSanitizer")
+                bad.append({"mke2fs": opts, "why": "ThreadSanitizer report: " + o[max(0, i - 20):i + 400].replace("\n", " | ")})
+    return runs, bad, len(imgs)
+
+
 def run(res, replay=None):
     tier, seed = res.tier, res.seed
     os.makedirs(WORK, exist_ok=True)
@@ -157,7 +211,7 @@ def run(res, replay=None):
         "thread interleavings of ext2fs_rw_bitmaps are represented by the proved partition of group ranges; data-race freedom of the C code is not proved",
     ]
     res.cov["partial"] = ["bounce-buffer (O_DIRECT) path, undo-wrapped and test_io channels, discard, readahead: not modelled",
-                          "threaded bitmap loading: only the partition arithmetic is proved; no TSan run in this tier"]
+                          "threaded bitmap loading: the partition arithmetic is proved; every thread count is compared with single-threaded loading on 7 geometries; ThreadSanitizer runs in the thorough tier only"]
     if replay:
         rp = json.load(open(replay))
         cases = [(tuple(rp["geom"]), rp["ops"])]
@@ -258,7 +312,15 @@ def run(res, replay=None):
                       signature="c17f:" + hashlib.sha256(json.dumps(ops).encode()).hexdigest()[:16])
     res.cov["rule"] = ("seeded random channel op sequences on a real file (block sizes 8/16/32, 12-40 blocks), 3 hot blocks, counts around WRITE_DIRECT_SIZE (4 vs 5), "
                        "byte writes, zeroout, cache on/off, write-through, block-size changes; non-trivial = a read after a write; plus fault sequences with one injected EIO")
-    if not pr["ok"] and not mism_oracle and not bad:
+    truns, tbad, timgs = thread_check(src, tier, seed)
+    res.cov["oracle"]["thread_loading_runs"] = truns
+    res.cov["oracle"]["thread_loading_images"] = timgs
+    res.cov["oracle"]["failures"] += len(tbad)
+    res.cov["evaluations"] += truns
+    for tb in tbad[:2]:
+        res.violation("oracle", dict(tb, note="allocation bitmaps / flags loaded with several threads differ from single-threaded loading (or a data race was reported)"),
+                      signature="c17thr:" + hashlib.sha256(json.dumps(tb, sort_keys=True).encode()).hexdigest()[:12])
+    if not pr["ok"] and not mism_oracle and not bad and not tbad:
         res.violation("proof", {"theorem_file": "coq/theories/Properties_C17.v", "failed_at": pr["failed_at"],
                                 "forbidden": pr["forbidden"], "log_tail": pr["log_tail"][-1500:]}, has_input=False)
     if mism_corr and not mism_oracle:
